@@ -43,6 +43,9 @@ fn add(c: &'static std::thread::LocalKey<Cell<u64>>, n: u64) {
 trait Ramp: AnyS + Duplex<f64> {
     /// ramp step in LSB (ints) / as a float
     fn ramp(i: u64, c: usize) -> Self;
+    /// "swing" content: neighbouring frames far apart (alternating sign, magnitude 0.5..0.95 of
+    /// full scale) - exercises the blend arithmetic where deltas exceed half of full scale
+    fn swing(i: u64, c: usize) -> Self;
     /// the float view (what to_sample::<f64>() must give): exact
     fn fview(self) -> f64;
     /// largest frame index the ramp can hold without saturating
@@ -59,6 +62,14 @@ macro_rules! ramp_int {
                 let amp = (i as i128 * k + c as i128).min(f.half() - 1) - if f.bits >= 16 { f.half() / 2 } else { 0 };
                 <$T as IntS>::from_raw(f.from_amp(amp.clamp(-f.half(), f.half() - 1)))
             }
+            fn swing(i: u64, c: usize) -> Self {
+                let f = <$T as IntS>::FMT;
+                let h = f.half() as f64;
+                let mag = 0.5 + 0.45 * ((vmon::rng::mix64(i * 31 + c as u64) % 1000) as f64 / 1000.0);
+                let sign = if (i + c as u64) % 2 == 0 { 1.0 } else { -1.0 };
+                let amp = (sign * mag * h) as i128;
+                <$T as IntS>::from_raw(f.from_amp(amp.clamp(-(f.half() - 1), f.half() - 1)))
+            }
             fn fview(self) -> f64 {
                 spec::int_to_f64(<$T as IntS>::FMT, self.raw())
             }
@@ -73,9 +84,20 @@ macro_rules! ramp_int {
     )*};
 }
 ramp_int!(i16, u8, I24, i32);
+fn swing_f(i: u64, c: usize) -> f64 {
+    let mag = 0.5 + 0.45 * ((vmon::rng::mix64(i * 31 + c as u64) % 1000) as f64 / 1000.0);
+    if (i + c as u64) % 2 == 0 {
+        mag
+    } else {
+        -mag
+    }
+}
 impl Ramp for f64 {
     fn ramp(i: u64, c: usize) -> Self {
         (i as f64 + c as f64 * 0.125) / 4096.0 - 0.25
+    }
+    fn swing(i: u64, c: usize) -> Self {
+        swing_f(i, c)
     }
     fn fview(self) -> f64 {
         self
@@ -90,6 +112,9 @@ impl Ramp for f64 {
 impl Ramp for f32 {
     fn ramp(i: u64, c: usize) -> Self {
         ((i % 8192) as f32 + c as f32 * 0.125) / 8192.0 - 0.25
+    }
+    fn swing(i: u64, c: usize) -> Self {
+        swing_f(i, c) as f32
     }
     fn fview(self) -> f64 {
         self as f64
@@ -144,20 +169,25 @@ where
     F: Frame + std::fmt::Debug + 'static,
     F::Sample: Ramp,
 {
-    let case = || format!("fmt={};interp={:?};ratios={};len={};n={};ctor={}", fname, interp, label, src_len.map(|l| l as i64).unwrap_or(-1), n_out, ctor);
+    let ctor_in = ctor;
+    let case = || format!("fmt={};interp={:?};ratios={};len={};n={};ctor={}", fname, interp, label, src_len.map(|l| l as i64).unwrap_or(-1), n_out, ctor_in);
     macro_rules! fail {
         ($what:expr, $($fmt:tt)*) => {{
             rep.violation(&format!("converter|{:?}|{}", interp, $what), format!("{} {} len {:?}: {}", fname, label, src_len, format!($($fmt)*)), case());
             return false;
         }};
     }
+    // ctor >= 10: same constructors, "swing" content instead of the ramp
+    let swing = ctor >= 10;
+    let ctor = ctor % 10;
     let frame_at = |i: u64| -> F {
         match src_len {
             Some(l) if i >= l => F::EQUILIBRIUM,
+            _ if swing => F::from_fn(|c| <F::Sample as Ramp>::swing(i, c)),
             _ => F::from_fn(|c| <F::Sample as Ramp>::ramp(i, c)),
         }
     };
-    let gen: fn(u64) -> F = |i| F::from_fn(|c| <F::Sample as Ramp>::ramp(i, c));
+    let gen: fn(u64) -> F = if swing { |i| F::from_fn(|c| <F::Sample as Ramp>::swing(i, c)) } else { |i| F::from_fn(|c| <F::Sample as Ramp>::ramp(i, c)) };
     let probe = Probe::new();
     let mut src = match src_len {
         Some(l) => USource::generated(gen, l, probe.clone()),
@@ -473,8 +503,13 @@ fn main() {
                     if cli.thorough() || (len + ri as u64 + fi as u64) % 3 == 0 || len <= 4 {
                         jobs.push((ri, interp, fi, Some(len), ((len + ri as u64) % 4) as u8));
                     }
+                    // large swings between neighbouring frames
+                    if (len + ri as u64) % 5 == 0 || (cli.thorough() && len % 2 == 0) {
+                        jobs.push((ri, interp, fi, Some(len), 10 + ((len + ri as u64) % 4) as u8));
+                    }
                 }
                 jobs.push((ri, interp, fi, None, 0));
+                jobs.push((ri, interp, fi, None, 10));
             }
         }
     }
@@ -518,7 +553,7 @@ fn main() {
         let label = format!("{}:{}:{}", if setter { "setter" } else { "mulhz" }, which, vseed);
         let len = if rng.chance(1, 3) { None } else { Some(rng.below((total as u64).max(4) + 6)) };
         let _ = name;
-        run_any(rep, f, interp, &ratios, &label, len, n as u64, 0);
+        run_any(rep, f, interp, &ratios, &label, len, n as u64, if rng.chance(1, 3) { 10 } else { 0 });
         rep.nontrivial(vmon::hash_combine(vmon::hash_str(&label), vmon::hash_str(f)));
         if rep.want_sample() && i % 61 == 0 {
             rep.sample(J::obj().set("frame_type", J::s(f)).set("interpolator", J::s(format!("{:?}", interp))).set("ratios", J::s(label)).set("source_len", J::i(len.map(|l| l as i64).unwrap_or(-1))).set("outputs", J::u(n as u64)));
